@@ -167,9 +167,19 @@ func c09Carrier(t *core.Tape, e c09Enzyme, frags []c09Frag) (c09Part, bool) {
 			seq = rc(seq)
 			desc += "flipped "
 		}
-		if t.Chance(10) {
+		switch t.Weighted(85, 9, 6) {
+		case 1:
 			seq = strings.ToLower(seq)
 			desc += "lowercase "
+		case 2:
+			b := []byte(seq)
+			for i := range b {
+				if t.Draw(2) == 1 {
+					b[i] |= 0x20
+				}
+			}
+			seq = string(b)
+			desc += "mixedcase "
 		}
 		return c09Part{Seq: seq, Circular: circular, Desc: strings.TrimSpace(desc)}, true
 	}
